@@ -28,7 +28,29 @@ theorem plain_append {a b : Str} (ha : ∀ c ∈ a, PlainChar c) (hb : ∀ c ∈
   · exact ha c h
   · exact hb c h
 
-theorem plain_digits (n : Nat) : ∀ c ∈ digitsOf n, PlainChar c := fun c hc => Or.inl (natStr_digits n c hc)
+theorem digitsAux_digits (fuel n : Nat) (acc : Str) (h : ∀ c ∈ acc, 48 ≤ c ∧ c ≤ 57) :
+    ∀ c ∈ digitsAux fuel n acc, 48 ≤ c ∧ c ≤ 57 := by
+  induction fuel generalizing n acc with
+  | zero => simpa [digitsAux] using h
+  | succ f ih =>
+    unfold digitsAux
+    split
+    · intro c hc
+      simp only [List.mem_cons] at hc
+      rcases hc with e | e
+      · subst e; omega
+      · exact h c e
+    · apply ih
+      intro c hc
+      simp only [List.mem_cons] at hc
+      rcases hc with e | e
+      · subst e; omega
+      · exact h c e
+
+theorem digitsOf_digits (n : Nat) : ∀ c ∈ digitsOf n, 48 ≤ c ∧ c ≤ 57 :=
+  digitsAux_digits _ _ [] (by simp)
+
+theorem plain_digits (n : Nat) : ∀ c ∈ digitsOf n, PlainChar c := fun c hc => Or.inl (digitsOf_digits n c hc)
 
 theorem plain_zeros (k : Nat) : ∀ c ∈ List.replicate k 48, PlainChar c := by
   intro c hc
